@@ -657,6 +657,7 @@ func inlineBoolHelpers(facts []Fact, depth int) []Fact {
 		for i, prm := range callee.Params {
 			if i < len(call.Call.Args) {
 				paramSubst[prm] = call.Call.Args[i]
+				paramBind[prm] = call.Call.Args[i]
 			}
 		}
 		out = append(out, inlineBoolHelpers(ways[0], depth-1)...)
